@@ -23,7 +23,24 @@ from mitmproxy.proxy.layers.http import HTTPMode
 from mitmproxy.test import taddons
 from mitmproxy.addons import proxyserver
 
-POLICIES = ["none", "true", "false", "id", "upper", "drop", "dropl", "dup", "mark"]
+def _gen_split(d):
+    yield d[:1]
+    yield d[1:]
+
+
+def _gen_mark(d):
+    yield d if d else b"!"
+
+
+def _gen_empty(d):
+    return
+    yield b""       # noqa: makes this a generator function
+
+
+POLICIES = ["none", "true", "false", "id", "upper", "drop", "dropl", "dup", "mark",
+            "tup", "gen", "iter", "egen", "genmark"]
+# the documented contract of a stream callable is `bytes | Iterable[bytes]`: bytes, list, tuple, generator, one-shot
+# iterator and empty generator results are all exercised, for data chunks and for the end-of-message call
 CALLABLES = {
     "id": lambda d: d,
     "upper": lambda d: d.upper(),
@@ -31,6 +48,11 @@ CALLABLES = {
     "dropl": lambda d: [],            # iterable result
     "dup": lambda d: [d, d],
     "mark": lambda d: d if d else b"!",   # emits a trailer chunk when called with b"" at the end
+    "tup": lambda d: (d,),            # tuple
+    "gen": _gen_split,                # generator: two pieces per call (also at the end: two empty pieces)
+    "iter": lambda d: iter([d, d]),   # one-shot iterator
+    "egen": _gen_empty,               # generator that yields nothing
+    "genmark": _gen_mark,             # generator with a trailer chunk at the end
 }
 LIMIT_MSG = "body exceeds mitmproxy's body_size_limit."
 
@@ -198,16 +220,17 @@ class Check(PropertyCheck):
                   "streamed_exact, relayed_exact_any_chunking, stored_iff_option, unstored_stream_holds_nothing, parseSize laws. "
                   "The model is tied to the real HttpLayer/HttpStream/Http1 stack run through world.py: error hook, client error, "
                   "the exact chunk list the peer receives, the buffer length after every delivery and the stored content are "
-                  "compared for both directions, three framings, all option combinations and nine stream policies.")
+                  "compared for both directions, three framings, all option combinations and fourteen stream policies (bytes, list, tuple, generator, one-shot iterator, empty generator results).")
     level_note = ("trusted: Lean kernel; the differential tie (grid + exhaustive small chunkings + random); h11's body readers "
                   "deliver one data event per received segment/chunk (observed, not modelled); the model works at the level of "
                   "HttpStream events, HTTP/1 re-framing is checked by an independent strict chunked reader in the harness, not "
-                  "proved; HTTP/2 and HTTP/3 peers are not driven (same HttpStream code). partial: buffer_bound is proved under "
+                  "proved; HTTP/2 and HTTP/3 peers are not driven (same HttpStream code); flows whose response an addon sets before the "
+                  "body arrives (request consumed, nothing sent upstream) are outside the model. partial: buffer_bound is proved under "
                   "the guard 'not (store_streamed_bodies and streaming)'; the unguarded statement is refuted by "
                   "buffer_bound_counterexample and recorded as finding F-C07a.")
     technique = "Lean 4 proof (invariants over event lists, arbitrary stream callable) + translator table + end-to-end correspondence through the real HttpLayer"
     rule = ("grid: direction x framing (content-length, chunked, until-EOF for responses) x 2^3 option combinations "
-            "(body_size_limit set?, stream_large_bodies set?, store_streamed_bodies) x 9 stream policies x body sizes in "
+            "(body_size_limit set?, stream_large_bodies set?, store_streamed_bodies) x 14 stream policies x body sizes in "
             "{0,1,limit-1,limit,limit+1,2*limit,threshold+-1}; every 1/2/3-way chunking of bodies of length <=5; then random "
             "bodies/chunkings/option values (incl. k/m suffixes); size: parse_size on generated option strings. distinct = "
             "distinct case; non-trivial = body non-empty or option string non-trivial.")
